@@ -1039,7 +1039,9 @@ fn parse_punctuated_nested_meta(
                     (None, "source") => set(&mut info.source, true, path)?,
                     (Some("not"), "source") => set(&mut info.source, false, path)?,
                     (None, "backtrace") => set(&mut info.backtrace, true, path)?,
-                    (Some("not"), "backtrace") => set(&mut info.backtrace, false, path)?,
+                    (Some("not"), "backtrace") => {
+                        set(&mut info.backtrace, false, path)?
+                    }
                     _ => {
                         return Err(Error::new(
                             path.span(),
@@ -1068,8 +1070,8 @@ pub(crate) mod verif_hooks {
         attrs_src: &str,
         allowed: &[&str],
     ) -> Result<String, String> {
-        let item: syn::DeriveInput =
-            syn::parse_str(&format!("{attrs_src} struct S;")).map_err(|e| format!("syn {e}"))?;
+        let item: syn::DeriveInput = syn::parse_str(&format!("{attrs_src} struct S;"))
+            .map_err(|e| format!("syn {e}"))?;
         let info = super::get_meta_info(trait_attr, &item.attrs, allowed)
             .map_err(|e| e.to_string())?;
         let f = |v: Option<bool>| match v {
